@@ -114,11 +114,8 @@ func (cs *c01case) readAll(r *Rng, name string, c *Ctx) {
 			}
 			op := fmt.Sprintf("resolve %s %s %d", ps, es, n.v)
 			model := c.Model.Ask(op)
-			// a conflict error surfaces as "not found" on the point-read path (GetBestKeyVersion drops the error)
-			modelObs := model
-			if model == "err" {
-				modelObs = "ok none"
-			}
+			// what a point read observes (whether a conflict error is reported or dropped is a regenerated fact)
+			modelObs := c.Model.Ask(fmt.Sprintf("resolve.point %s %s %d", ps, es, n.v))
 			c.Cmp("datastore.findMatch via GET key", op, impl, modelObs)
 			spec := d.specRead(cs.entries[k], n.v)
 			if ms := c.Model.Ask(fmt.Sprintf("spec %s %s %d", ps, es, n.v)); strings.TrimPrefix(ms, "ok ") != spec {
@@ -140,9 +137,11 @@ func (cs *c01case) readAll(r *Rng, name string, c *Ctx) {
 					j := r.Intn(i + 1)
 					keys[i], keys[j] = keys[j], keys[i]
 				}
-				best, _ := ctx.GetBestKeyVersion(keys)
+				best, berr := ctx.GetBestKeyVersion(keys)
 				got := "ok none"
-				if best != nil {
+				if berr != nil {
+					got = "err"
+				} else if best != nil {
 					v, _ := storage.VersionFromDataKey(best)
 					got = fmt.Sprintf("ok found %d", int(v)-d.base)
 				}
